@@ -683,6 +683,19 @@ func genHist(ctx *Ctx, emit func(any, string)) {
 		}
 	}
 	rec(nil, depth)
+	// long runs of nil elements at either end (Front / Back look past them, however long)
+	for _, run := range []int{49, 50, 51, 64, 130} {
+		nils := make([]int, run)
+		for _, fifo := range []int{0, 1} {
+			in := HistInput{Kind: "BASIC", Cap: -1, Obs: true}
+			if fifo == 1 {
+				in.Ops = append(in.Ops, HOp{Op: "setfifo", I: 1})
+			}
+			in.Ops = append(in.Ops, HOp{Op: "push", Vs: []int{7}}, HOp{Op: "push", Vs: nils}, HOp{Op: "reverse"},
+				HOp{Op: "push", Vs: []int{8}}, HOp{Op: "push", Vs: nils}, HOp{Op: "pop"})
+			emit(in, "exhaustive")
+		}
+	}
 	for _, cp := range bigCaps {
 		for _, k := range kinds {
 			emit(HistInput{Kind: k, Cap: cp, Obs: true, Ops: []HOp{{Op: "push", Vs: []int{1, 2}}, {Op: "pop"}, {Op: "push", Vs: []int{3}}, {Op: "insert", I: 0, Vs: []int{4}}}}, "exhaustive")
